@@ -321,6 +321,31 @@ def rule_codec_agree(ctx, rep):
         rep.check("R-CODEC-AGREE", fn.qname, fn.loc(), not problems, "decode/encode", "; ".join(problems), codecs=sorted(codecs))
 
 
+def rule_line_unit(ctx, rep, rule_id="R-LINE-UNIT"):
+    rep.rule(
+        rule_id,
+        "text that is diffed or whose lines are numbered (diff.py, the 3 pipelines, the 4 writers) is never split with str.splitlines, "
+        "which also breaks at form feeds, NEL, U+2028/9 ...: hunks and line numbers would not correspond to the file's lines (a ^L page "
+        "break in a source file makes the reported diff inapplicable)",
+        min_instances=8,
+    )
+    mods = {"codemodder.diff"}
+    fns = [f for f in ctx.prog.functions.values() if f.module.name in mods] + rw_sites(ctx)
+    extra = []
+    for fn in rw_sites(ctx):
+        r = ctx.resolver(fn)
+        for c in walk_no_nested(fn.node):
+            if isinstance(c, ast.Call):
+                for t in r.resolve_call(c):
+                    if isinstance(t, FuncInfo) and t.cls is not None and t.name.startswith("_") and t not in fns and t not in extra:
+                        extra.append(t)
+    for fn in fns + extra:
+        bad = [c for c in walk_no_nested(fn.node) if isinstance(c, ast.Call) and isinstance(c.func, ast.Attribute) and c.func.attr == "splitlines"]
+        rep.check(rule_id, fn.qname, fn.loc(bad[0]) if bad else fn.loc(), not bad, "splitlines",
+                  f"`{unparse(bad[0])[:60]}` splits on more than line feeds: line numbers / diff hunks disagree with the file for text containing "
+                  "form feeds or Unicode line separators" if bad else "")
+
+
 def check(ctx, rep):
     rep.explanation = (
         "The 3 transformer pipelines' apply() and the 4 manifest writers' add_to_file() are enumerated from the class "
@@ -333,6 +358,7 @@ def check(ctx, rep):
     rule_newline(ctx, rep)
     rule_no_content_cache(ctx, rep)
     rule_codec_agree(ctx, rep)
+    rule_line_unit(ctx, rep)
     rep.not_covered += [
         "byte-level applicability of difflib output (BOM, encodings, final newline arithmetic)",
         "lossless round-trip of libcst parse/emit (trusted)",
